@@ -103,6 +103,13 @@ fn visit<'a>(
             }
             Ok(())
         }
-        Type::Name(ident) => visit_name(types, visited, ident.name),
+        Type::Name(ident) => {
+            // A type can also contain itself through a type argument, e.g.
+            // `record A { x: A? }`.
+            for argument in &ident.arguments {
+                visit(types, visited, argument)?;
+            }
+            visit_name(types, visited, ident.name)
+        }
     }
 }
